@@ -301,17 +301,18 @@ Proof.
   destruct (uint_read true inp1) as [[ref_ind inp2]|] eqn:E2; [|exact I].
   destruct (uint_read_spec _ _ _ _ E2) as [c2 [-> _]].
   rewrite w32_small by (unfold START_LEN, M32; lia).
-  unfold START_LEN, BUF_LEN in *.
   cbn [andb].
   destruct ((ref_ind =? 0) || (d_ind st <? ref_ind)) eqn:Hc0; [exact I|].
-  destruct (262144 <=? d_ind st - ref_ind) eqn:Hc1; [lia|].
+  destruct (BUF_LEN <=? d_ind st - ref_ind) eqn:Hc1; [lia|].
   set (sym_pos := aget i2p0 (d_i2p st) (d_ind st - ref_ind)) in *.
-  destruct ((d_pos st <? sym_pos + (r1 + (4 - 1))) || (262144 <? d_pos st + (r1 + (4 - 1)))) eqn:Hc2; [exact I|].
-  destruct (262144 <? sym_pos + (r1 + (4 - 1))) eqn:Hc3; [lia|].
-  destruct (262144 <? d_pos st + (r1 + (4 - 1))) eqn:Hc4; [lia|].
-  destruct (_ && _) eqn:Hc5; [lia|].
-  destruct (262144 <=? d_ind st) eqn:Hc6; [lia|].
-  split; [unfold dinv, BUF_LEN; cbn; lia|].
+  set (ref_len := r1 + (START_LEN - 1)) in *.
+  assert (Hrl : 1 <= ref_len) by (unfold ref_len, START_LEN; lia).
+  destruct ((d_pos st <? sym_pos + ref_len) || (BUF_LEN <? d_pos st + ref_len)) eqn:Hc2; [exact I|].
+  destruct (BUF_LEN <? sym_pos + ref_len) eqn:Hc3; [lia|].
+  destruct (BUF_LEN <? d_pos st + ref_len) eqn:Hc4; [lia|].
+  destruct ((0 <? ref_len) && (sym_pos <? d_pos st + ref_len) && (d_pos st <? sym_pos + ref_len)) eqn:Hc5; [lia|].
+  destruct (BUF_LEN <=? d_ind st) eqn:Hc6; [lia|].
+  split; [unfold dinv; cbn; lia|].
   exists (c1 ++ c2). rewrite app_assoc. reflexivity.
 Qed.
 
